@@ -68,8 +68,11 @@ def _stats(ubm, ss, s, o):
             st.n, st.sum_px, st.sum_pxx, st.t = st.n * 0.5, st.sum_px * 0.5, st.sum_pxx * 0.5, 1
             out.append(st)
         return out
-    if ss == 3:  # a statistics object without frames among others
-        return [ubm.acc_stats(fr[1]), GMMStats(C, D), ubm.acc_stats(fr[2])]
+    if ss == 3:  # a statistics object without frames among others; frame counts held as numpy integers (as after an HDF5 round trip)
+        out = [ubm.acc_stats(fr[1]), GMMStats(C, D), ubm.acc_stats(fr[2])]
+        for st in out:
+            st.t = np.int64(st.t)
+        return out
     st = GMMStats(C, D)  # synthetic integers
     st.t = 5
     st.n = np.arange(1, C + 1, dtype=float)
@@ -188,6 +191,15 @@ def run_case(case):
         for pres, arg in (("array3", np.array(mods3)), ("list_of_arrays", [m_.copy() for m_ in mods3]), ("machines", mach3)):
             got3 = np.asarray(linear_scoring(arg, ubm3, stats, 0, False))
             c.close(got3, want3, "integer_ubm_means", f"{pres}: UBM means held in an integer array, fractional model means", {}, scale=scale)
+            c.transitions += 1
+    # offsets given as a non-zero scalar or as one value per feature broadcast over components and tests
+    for okind2, offv in (("scalar", 0.25 * s), ("per_feature", (np.arange(D, dtype=float) - 0.5) * s)):
+        full = np.broadcast_to(np.asarray(offv, float), (C, D))
+        for norm in (False, True):
+            want4 = np.array([[ofa.linear_score(models[i], um, uv, np.asarray(stats[j].n), np.asarray(stats[j].sum_px), stats[j].t, full, norm)
+                               for j in range(N)] for i in range(M)])
+            got4 = np.asarray(linear_scoring(np.array(models), ubm, stats, offv, norm))
+            c.close(got4, want4, "value", f"offsets given as {okind2}", dict(offsets=okind2, norm=norm, ubm_as="prior"), scale=scale)
             c.transitions += 1
     # linearity in the model offset
     d1, d2 = models[0] - um, (models[1] - um if M > 1 else (models[0] - um) * 0.5)
